@@ -439,6 +439,69 @@ def fn_sig(fn):
     return "|".join(str(x) for x in fn.locals[:fn.argc + 1])
 
 
+def adt_field_table(F):
+    """{adt path: [[(field name, type) of variant 0], ..]} (what tools/pin_fns.py freezes)"""
+    out = {}
+    for path, a in F.adts.items():
+        if a.get("crate", "").startswith("laythe"):
+            out[path] = [[[f["name"], f["ty"]] for f in v["fields"]] for v in a["variants"]]
+    return out
+
+
+def apply_field_renames(F):
+    """A field of a reference struct/variant that has a new name at the same position with the same type, the old name
+    gone and the new one not a reference field of that type: the same field under a new name. It gets its reference
+    name back in every place projection and in the ADT table, so rules that speak of `queue` or `frames` keep their
+    anchor. Anything else (types changed, fields added/removed/reordered) is left alone."""
+    pinned = pin_file().get("adt_fields", {})
+    ren = {}
+    for path, variants in pinned.items():
+        a = F.adts.get(path)
+        if a is None or len(a["variants"]) != len(variants):
+            continue
+        for v, ref in zip(a["variants"], variants):
+            cur = [(f["name"], f["ty"]) for f in v["fields"]]
+            if len(cur) != len(ref) or [c[0] for c in cur] == [r[0] for r in ref]:
+                continue
+            refnames = {r[0] for r in ref}
+            curnames = {c[0] for c in cur}
+            pairs = []
+            ok = True
+            for (cn, ct), (rn_, rt) in zip(cur, ref):
+                if cn == rn_:
+                    continue
+                if ct != rt or cn in refnames or rn_ in curnames:
+                    ok = False
+                    break
+                pairs.append((cn, rn_))
+            if ok:
+                for cn, rn_ in pairs:
+                    ren[(path, cn)] = rn_
+                for f in v["fields"]:
+                    if (path, f["name"]) in ren:
+                        f["name"] = ren[(path, f["name"])]
+    if not ren:
+        return
+    F.field_renames = {"%s.%s" % k: v for k, v in ren.items()}
+
+    def walk(x):
+        if isinstance(x, list):
+            if len(x) == 4 and x[0] == "field" and isinstance(x[2], str) and isinstance(x[3], str):
+                o = ren.get((x[3], x[2]))
+                if o is not None:
+                    x[2] = o
+                return
+            for y in x:
+                if isinstance(y, (list, dict)):
+                    walk(y)
+        elif isinstance(x, dict):
+            for y in x.values():
+                if isinstance(y, (list, dict)):
+                    walk(y)
+    for fn in F.all_fns():
+        walk(fn.blocks)
+
+
 def apply_renames(F):
     """A function of the reference tree that is gone, and a function that is new, in the same impl/module
     with the same signature, each the only candidate for the other: the same function under a new name.
@@ -843,7 +906,9 @@ class Facts:
         self._impl_fn_index = None
         self.inlined = {}
         self.renamed = {}
+        self.field_renames = {}
         if not os.environ.get("LAYTHE_NO_INLINE"):
+            apply_field_renames(self)
             apply_renames(self)
             inline_new_helpers(self)
 
@@ -910,6 +975,7 @@ class Syn:
         self.renamed = {}
         if not os.environ.get("LAYTHE_NO_INLINE"):
             syn_apply_moves(self)
+            syn_apply_field_renames(self)
             syn_apply_renames(self)
             syn_inline_new_helpers(self)
 
@@ -981,6 +1047,76 @@ def syn_fn_sigs(S):
             impl = next((re.sub(r"<.*", "", c[1]).strip() for c in cont if c[0] == "impl"), "")
             out["%s|%s|%s" % (rel, impl, it["name"])] = _syn_sig(it)
     return out
+
+
+def syn_field_table(S):
+    """{file|Struct: [[field name, type text], ..]} for the named-field structs of the laythe crates"""
+    out = {}
+    for rel in sorted(S.files):
+        if not rel.startswith("laythe"):
+            continue
+        for cont, it in S.walk_items(rel):
+            if it.get("k") == "struct" and it.get("fields") and not any(c[0] == "mod" and c[1] in ("test", "tests") for c in cont):
+                out["%s|%s" % (rel, it["name"])] = [[f.get("name"), f.get("ty")] for f in it["fields"]]
+    return out
+
+
+def syn_apply_field_renames(S):
+    """syntax-level twin of apply_field_renames. Syntax has no types, so the old name is put back wherever the new
+    name is used as a field (`x.new`, `S { new: .. }`, `S { new, .. }` patterns, macro token text) in the files of
+    the struct's crate, and only when no other struct of that crate has a field of the new or the old name."""
+    pinned = pin_file().get("syn_fields", {})
+    if not pinned:
+        return
+    cur = syn_field_table(S)
+    for key, ref in pinned.items():
+        now = cur.get(key)
+        if now is None or len(now) != len(ref) or [n[0] for n in now] == [r[0] for r in ref]:
+            continue
+        rel, sname = key.split("|")
+        crate = rel.split("/")[0]
+        refnames = {r[0] for r in ref}
+        nownames = {n[0] for n in now}
+        pairs = []
+        ok = True
+        for (cn, ct), (rn_, rt) in zip(now, ref):
+            if cn == rn_:
+                continue
+            if ct != rt or cn in refnames or rn_ in nownames or cn is None or rn_ is None:
+                ok = False
+                break
+            pairs.append((cn, rn_))
+        if not ok:
+            continue
+        others = set()
+        for k2, fl in cur.items():
+            if k2 != key and k2.split("/")[0] == crate:
+                others |= {f[0] for f in fl}
+        for cn, rn_ in pairs:
+            if cn in others or rn_ in others:
+                continue
+            S.renamed["%s.%s" % (key, cn)] = rn_
+            rx = re.compile(r"(?<![\w])%s(?![\w])" % re.escape(cn))
+            for rel2 in S.files:
+                if rel2.split("/")[0] != crate:
+                    continue
+                for n in walk_expr(S.files[rel2]):
+                    if n.get("e") == "field" and n.get("f") == cn:
+                        n["f"] = rn_
+                    elif n.get("e") == "struct" and isinstance(n.get("fields"), list):
+                        for fl in n["fields"]:
+                            if isinstance(fl, list) and fl and fl[0] == cn:
+                                fl[0] = rn_
+                    elif n.get("p") == "struct" and isinstance(n.get("fields"), list):
+                        for fl in n["fields"]:
+                            if isinstance(fl, list) and fl and fl[0] == cn:
+                                fl[0] = rn_
+                    elif n.get("k") == "struct" and n.get("name") == sname and rel2 == rel:
+                        for f in n.get("fields") or []:
+                            if f.get("name") == cn:
+                                f["name"] = rn_
+                    elif n.get("e") == "macro" and isinstance(n.get("tokens"), str) and cn in n["tokens"]:
+                        n["tokens"] = re.sub(r"\.\s*%s(?![\w(])" % re.escape(cn), "." + rn_, n["tokens"])
 
 
 def syn_apply_renames(S):
